@@ -44,6 +44,7 @@ type Op struct {
 	N    int    `json:"n"` // size / index / key selector
 	V    int    `json:"v"` // value
 	R    int    `json:"r"`
+	F    bool   `json:"f,omitempty"` // run the statement inside an immediately called function literal: every variable is then reached through a reference to the top-level binding
 }
 
 type Case struct {
@@ -76,12 +77,14 @@ type machine struct {
 	nt    bool
 	excl  map[string]int
 	// provenance of large containers, used only to recognise the classes of the known findings:
-	store     map[string]int          // variable -> id of the backing storage its (large) container value uses
-	inner     map[string]map[int]bool // variable -> ids of the storages of the containers stored inside it
-	spare     map[int]bool            // storage id -> the backing slice may have spare capacity (it was produced by +)
-	nextID    int
-	noExclude bool
-	bigRep    map[string]bool // variable -> its map value uses the large representation although it has <= 4 pairs (it shrank through del)
+	store      map[string]int          // variable -> id of the backing storage its (large) container value uses
+	inner      map[string]map[int]bool // variable -> ids of the storages of the containers stored inside it
+	spare      map[int]bool            // storage id -> the backing slice may have spare capacity (it was produced by +)
+	nextID     int
+	noExclude  bool
+	bigRep     map[string]bool // variable -> its map value uses the large representation although it has <= 4 pairs (it shrank through del)
+	inFunc     bool
+	inFuncUsed int
 }
 
 const prelude = `func mut(p, i, v) { p[i] = v; p }
@@ -92,6 +95,10 @@ func newMachine() *machine {
 	m := &machine{s: sess.New(sess.Config{}), model: map[string]val.V{}, excl: map[string]int{}, store: map[string]int{}, inner: map[string]map[int]bool{}, spare: map[int]bool{}, bigRep: map[string]bool{}}
 	if r := m.s.Run(prelude); r.Failed() {
 		panic("harness: prelude failed: " + strings.Join(r.Errs, ";"))
+	}
+	// every variable exists at top level from the start, so that a statement run inside a function updates it
+	if r := m.s.Run(strings.Join(varNames, " = nil; ") + " = nil"); r.Failed() {
+		panic("harness: variable declarations failed: " + strings.Join(r.Errs, ";"))
 	}
 	return m
 }
@@ -106,6 +113,10 @@ func big(v val.V) bool {
 }
 
 func (m *machine) run(src string) error {
+	if m.inFunc {
+		src = "func(){ " + src + " }()"
+		m.inFuncUsed++
+	}
 	m.stmts = append(m.stmts, src)
 	r := m.s.Run(src)
 	if r.Failed() {
@@ -260,6 +271,7 @@ func contains(hay, needle val.V) bool {
 
 // apply performs one op on the session and on the model. skip=true: the op does not apply in this state.
 func (m *machine) apply(o Op) (skip bool, err error) {
+	m.inFunc = o.F
 	x, y := varNames[o.X%nVars], varNames[o.Y%nVars]
 	xv, xok := m.model[x]
 	yv, yok := m.model[y]
@@ -605,6 +617,7 @@ func TestHistories(t *testing.T) {
 				Kind: rapid.SampledFrom(opKinds).Draw(rt, "kind"),
 				X:    rapid.IntRange(0, nVars-1).Draw(rt, "x"), Y: rapid.IntRange(0, nVars-1).Draw(rt, "y"),
 				N: rapid.SampledFrom(sizes).Draw(rt, "n"), V: rapid.IntRange(0, 99).Draw(rt, "v"), R: rapid.IntRange(0, 20).Draw(rt, "r"),
+				F: rapid.IntRange(0, 2).Draw(rt, "infunc") == 0,
 			})
 		}
 		m, err := runCase(c)
@@ -619,6 +632,9 @@ func TestHistories(t *testing.T) {
 		lbl := "history:small-or-unshared"
 		if m.nt {
 			lbl = "history:shared-large-container-mutated"
+		}
+		if m.inFuncUsed > 0 {
+			pbt.Label("history:statements-inside-functions")
 		}
 		pbt.Case(m.nt, strings.Join(m.stmts, "\n"), lbl)
 		pbt.Sample("history", m.stmts)
